@@ -495,11 +495,31 @@ func ruleDepositPop(c *Ctx) {
 		// the signature is only inspected for a NEW validator: a top-up (known pubkey) is credited whatever its
 		// signature bytes are, so the signature decode and the verification must sit under `if !exists`
 		if step != "pubkey-decode" {
+			// wherever the step stands: under `if !exists { … }`, or after `if exists { …; return }` — what matters is
+			// that "the pubkey is not known" holds there; `exists` is the boolean derived from the registry lookup
 			guarded := false
-			for cur := ast.Node(call); cur != nil; cur = parents[cur] {
-				if is, ok := cur.(*ast.IfStmt); ok && is.Body.Pos() <= call.Pos() && call.End() <= is.Body.End() {
-					if ue, ok := ast.Unparen(is.Cond).(*ast.UnaryExpr); ok && ue.Op == token.NOT {
-						if id, ok := ast.Unparen(ue.X).(*ast.Ident); ok && strings.Contains(strings.ToLower(id.Name), "exist") {
+			defs := singleDefs(info, fd.Body)
+			var stmt ast.Node = call
+			for stmt != nil {
+				if _, ok := stmt.(ast.Stmt); ok {
+					break
+				}
+				stmt = parents[stmt]
+			}
+			for _, as := range assumedConds(parents, stmt) {
+				e := ast.Unparen(as.cond)
+				neg := as.neg
+				for {
+					u, ok := e.(*ast.UnaryExpr)
+					if !ok || u.Op != token.NOT {
+						break
+					}
+					neg = !neg
+					e = ast.Unparen(u.X)
+				}
+				if id, ok := e.(*ast.Ident); ok && neg {
+					if b, ok := info.TypeOf(id).Underlying().(*types.Basic); ok && b.Kind() == types.Bool {
+						if derivesFromCall(info, id, defs, "ValidatorIndex") || mentionsLookupFlag(info, id, defs, fd) {
 							guarded = true
 						}
 					}
@@ -873,3 +893,62 @@ func init() {
 
 // exprAtomText: the atom exprPoly gives a plain place written as text (spec.X -> X is not needed here).
 func exprAtomText(info *types.Info, s string) string { return s }
+
+// assumedConds: the conditions that hold whenever control reaches statement n (see assumptionsAt), as syntax:
+// (cond, neg) means cond holds (neg=false) or its negation holds (neg=true).
+type assumedCond struct {
+	cond ast.Expr
+	neg  bool
+}
+
+func assumedConds(parents map[ast.Node]ast.Node, n ast.Node) []assumedCond {
+	var out []assumedCond
+	if n == nil {
+		return nil
+	}
+	var child ast.Node = n
+	for p := parents[n]; p != nil; child, p = p, parents[p] {
+		switch x := p.(type) {
+		case *ast.BlockStmt:
+			for _, st := range x.List {
+				if st == child {
+					break
+				}
+				if is, ok := st.(*ast.IfStmt); ok && is.Else == nil && terminates(is.Body) {
+					out = append(out, assumedCond{is.Cond, true})
+				}
+			}
+		case *ast.IfStmt:
+			if child == ast.Node(x.Body) {
+				out = append(out, assumedCond{x.Cond, false})
+			} else if child == ast.Node(x.Else) {
+				out = append(out, assumedCond{x.Cond, true})
+			}
+		case *ast.FuncLit:
+			return out
+		}
+	}
+	return out
+}
+
+// mentionsLookupFlag: the boolean is defined from the `ok` of a two-result registry lookup (x, ok := cache.ValidatorIndex(pub)).
+func mentionsLookupFlag(info *types.Info, id *ast.Ident, defs map[types.Object]localDef, fd *ast.FuncDecl) bool {
+	d, ok := defs[info.Uses[id]]
+	if !ok || d.rhs == nil {
+		return false
+	}
+	found := false
+	ast.Inspect(d.rhs, func(k ast.Node) bool {
+		if x, ok := k.(*ast.Ident); ok {
+			if dd, ok := defs[info.Uses[x]]; ok && dd.n == 2 && dd.rhs != nil {
+				if cl, ok := ast.Unparen(dd.rhs).(*ast.CallExpr); ok {
+					if f := calleeFunc(info, cl); f != nil && f.Name() == "ValidatorIndex" {
+						found = true
+					}
+				}
+			}
+		}
+		return !found
+	})
+	return found
+}
